@@ -3,6 +3,7 @@ import FractopoModel.Lemmas.SnapLoop
 import FractopoModel.Generated.SnapInsert
 import FractopoModel.Lemmas.SnapDriver
 import FractopoModel.Lemmas.InsertPoint
+import FractopoModel.Lemmas.SnapStage
 import FractopoModel.Generated.Windows
 import FractopoModel.Generated.DegreeToClass
 import FractopoModel.Props.C05
@@ -234,6 +235,42 @@ theorem C06_generated_insert_point (l : Polyline) (p : Pt) (t : Rat) (angle : Pt
     have e2 : l.getD (j + 1) default = l.getD (j + 1) p := by
       rw [List.getD_eq_getElem?_getD, List.getD_eq_getElem?_getD, List.getElem?_eq_getElem (by omega)]; rfl
     simp only [e1, e2]
+
+/-! ### the regenerated snapping pass -/
+
+/-- **The regenerated `simple_snap` IS the model's first stage for one trace** (exact squared distances for the distance
+parameters): candidate pre-filter, replacement dictionary built candidate by candidate and end by end, already-snapped skip, nearest
+interior vertex within the threshold (first minimum = head of the stable sort), overlapping-snap skip, ValueError on a second
+replacement, rewrite of the coordinates. -/
+theorem C06_generated_simple_snap (t : Rat) (trace : Polyline) (cands : List Polyline) :
+    SnapStageL.simpleSnapG trace cands t = SnapL.simpleSnap t trace cands :=
+  SimpleSnapL.generated_simple_snap t trace cands
+
+/-- **The regenerated `snap_traces` IS the model's snapping pass.** `resolve_trace_candidates`, `snap_trace_simple`,
+`snap_others_to_trace` and `snap_traces` are regenerated whole and call the regenerated `simple_snap`,
+`is_endpoint_close_to_boundary`, `snap_trace_to_another` (whose vertex insertion is `C06_generated_insert_point`). For every list of
+traces, threshold, areas and either candidate order of the spatial index, with distance parameters whose comparison with the
+threshold is the exact squared comparison, the regenerated pass equals `SnapL.snapPass` -- results, change flag and both
+ValueErrors. Together with `C06_generated_driver` the whole snapping stage of `branches_and_nodes` is regenerated code, and
+`C06_quiet_pass_identity`, `C06_loop_bound`, `C06_pass_keeps_rows`, `C04_pass_stays_within_threshold`, `C01_snap_stage_identity`
+are theorems about it. -/
+theorem C06_generated_snap_traces (ord : SnapL.Ord) (t : Rat) (areas : List Polygon) (traces : List Polyline)
+    (dist : Pt → Polyline → Rat) (bdist : Pt → Polygon → Rat)
+    (hdist : ∀ ep l, decide (dist ep l < t) = SnapL.near t ep l)
+    (hbd : ∀ ep (pg : Polygon), decide (bdist ep pg < t) = decide (pg.boundaryDist2 ep < t * t)) :
+    Gen.snap_traces SnapStageL.boundsE (SnapStageL.indexE ord) SnapStageL.simpleSnapG SnapL.ends bdist dist (fun ep l => SnapL.onLine ep l)
+        (fun l ep thr => Snap.insertGeo l ep thr) traces t (some areas)
+      = SnapL.snapPass ord t (t * 20) areas traces :=
+  SnapStageL.generated_snap_traces ord t areas traces dist bdist hdist hbd
+
+/-- the distance laws are satisfiable for every positive threshold (threshold-clamped exact distances), and on the T-abutment
+1/200 short of its target the regenerated pass inserts the end into the target -/
+example : (∀ ep l, decide (SnapStageL.distC (1 / 100) ep l < 1 / 100) = SnapL.near (1 / 100) ep l) ∧
+    (match Gen.snap_traces SnapStageL.boundsE (SnapStageL.indexE .asc) SnapStageL.simpleSnapG SnapL.ends (SnapStageL.bdistC (1 / 100)) (SnapStageL.distC (1 / 100))
+        (fun ep l => SnapL.onLine ep l) (fun l ep thr => Snap.insertGeo l ep thr) [[⟨0, 0⟩, ⟨10, 0⟩], [⟨5, 1 / 200⟩, ⟨5, 4⟩]] (1 / 100) (some []) with
+      | .ok (tr, ch) => tr == [[⟨0, 0⟩, ⟨5, 1 / 200⟩, ⟨10, 0⟩], [⟨5, 1 / 200⟩, ⟨5, 4⟩]] && ch
+      | .error _ => false) = true :=
+  ⟨fun ep l => SnapStageL.distC_law _ (by decide +kernel) ep l, by decide +kernel⟩
 
 /-- non-vacuity: the doctest of `insert_point_to_linestring` through the regenerated code -/
 example : Gen.insert_point_to_linestring (fun c q => Pt.dist2 q c) (fun a b => a == b) (fun _ _ _ => 0) (fun a b q => ptSegDist2 q a b)
